@@ -48,6 +48,13 @@ def points(tier):
                 for c in C:
                     for r in R:
                         pts.append({"kind": "unwrapped", "d": d, "c": c, "r": r, "engine": eng, "sign": sign, "noise": None})
+            if eng == "numpy":
+                # a header that (wrongly) says WRAP YES over one-line-per-step data, read with the option documented for
+                # exactly that case (use_normal_engine_for_wrapped=False): the lines are still the depth steps
+                for d in D:
+                    for c in C:
+                        for r in R:
+                            pts.append({"kind": "wrapflag", "d": d, "c": c, "r": r, "engine": eng, "sign": sign, "noise": None})
             for c in W:
                 for comp in space.compositions(c):
                     for r in WR:
@@ -116,7 +123,7 @@ def build_text(pt):
     if pt.get("names") == "numeric":
         # curve j (j >= 1) is named after the position of the next curve, the last one after position 1; curve 0 after position d-1
         curves = [((str((j % max(d - 1, 1)) + 1) if j else str(max(d - 1, 0))), u, v, de) for j, (_, u, v, de) in enumerate(curves)]
-    wrap = "YES" if pt["kind"] == "wrapped" else "NO"
+    wrap = "YES" if pt["kind"] in ("wrapped", "wrapflag") else "NO"
     secs = [lasgen.version_section("2.0", wrap, dlm="COMMA" if pt["kind"] == "comma-empty" else None), lasgen.well_section("-999.25")]
     secs.append(lasgen.curve_section(curves))
     lines = ["~ASCII"]
@@ -154,6 +161,8 @@ def check_point(pt):
 
     try:
         rkw = {"ignore_data_comments": pt["marker"]} if pt.get("marker") else {}
+        if pt["kind"] == "wrapflag":
+            rkw["use_normal_engine_for_wrapped"] = False
         las = lasio.read(text, engine=pt["engine"], **rkw)
     except Exception as e:
         # the statement defines the outcome for these inputs, so they must read
@@ -197,6 +206,25 @@ def check_point(pt):
             if not (col.dtype.kind == "f" and np.all(np.isnan(col))):
                 vio.append(V("missing-column-not-nan", {"curve": j, "values": "all NaN"}, col.tolist()))
                 break
+    if not vio and d > c and r > 0:
+        # the NaN filler of one declared-but-absent curve is that curve's own array: overwriting it in place changes
+        # neither its siblings nor what a later read of the same text returns
+        try:
+            np.asarray(cur[c].data)[...] = 7.0
+            for j in range(c + 1, d):
+                col = np.asarray(cur[j].data)
+                if not np.all(np.isnan(col)):
+                    vio.append(V("filler-shared-between-curves", {"curve": j, "values": "all NaN"}, col.tolist()))
+                    break
+            again = list(lasio.read(text, engine=pt["engine"], **rkw).curves)
+            for j in range(c, d):
+                col = np.asarray(again[j].data)
+                if not (len(col) == r and np.all(np.isnan(col.astype(float)))):
+                    vio.append(V("filler-shared-between-reads", {"curve": j, "values": "all NaN"}, col.tolist()))
+                    break
+            np.asarray(cur[c].data)[...] = np.nan
+        except Exception as e:
+            vio.append(V("filler-edit-raises", "an in-place edit of a filler column and a re-read succeed", repr(e)))
     if not vio and lens and len(set(lens)) == 1 and pt["kind"] != "comma-empty":
         try:
             data = las.data
